@@ -427,8 +427,15 @@ def analyse(fn: ast.FunctionDef, fold: Optional[Callable[[ast.AST], Any]] = None
     x_pos = x_neg = None
     if len(monos) == 1:
         pm = monos.pop()
-        x_pos = alg.is_zero(add(x, mul({pm: Fraction(1)}, xref), -1))
-        x_neg = alg.is_zero(add(x, mul({pm: Fraction(1)}, xref)))
+        # x = c * pm * x_ref with a rational c read off one monomial (c = 1/16 for vectors of half the unit length ...)
+        from .polyalg import mmul
+
+        m0 = min(xref) if xref else None
+        cx = x.get(mmul(pm, m0)) if m0 is not None else None
+        c = (cx / xref[m0]) if cx else Fraction(1)
+        prop = alg.is_zero(add(x, mul({pm: c}, xref), -1))
+        x_pos = bool(prop and c > 0)
+        x_neg = bool(prop and c < 0)
     # names of the quantities that vanish in the degenerate cases
     quantities = {
         alg_atom(alg, alg.cross(b1, b2)): ("cross", (1, 2)),
